@@ -111,6 +111,12 @@ theorem flattenAll_setToIdl (prog : List Nat) (present : Bool) : (fs : List SetS
       flattenAll_setToIdl prog present fs hw.2]
 end
 
+theorem agree_refl (a : Slot) : agree a a = true := by simp [agree]
+
+theorem agreeAll_refl : (l : List Slot) → agreeAll l l = true
+  | [] => rfl
+  | a :: as => by simp [agreeAll, agree_refl, agreeAll_refl as]
+
 /-! ### discriminants -/
 
 theorem rdLE_append_zeros (d : List Nat) (k : Nat) : rdLE (d ++ List.replicate k 0) = rdLE d := by
